@@ -51,6 +51,11 @@ def run(idx, rep, tier):
     r7(idx, rep)
     r8(idx, rep)
     r9(idx, rep)
+    durable_ids(idx, rep, "R4")
+    # a path that is not ending must not be left frozen by a last()/fail() consequence: set_variable is a no-op on a frozen path (R5),
+    # so every later assignment of that line would silently keep its old value
+    from . import c13
+    c13.frozen_checks(idx, rep, "R5")
     rep.stats["exhaustive"] = True
 
 
@@ -210,6 +215,17 @@ def r3(idx, rep):
         rep.check(f.qual in allowed, "R3", f"{f.file}::{f.qual} calls raise_match_count_if", "the match count may only be raised by the line driver and by the onmatch look-ahead", K.where(f, c["call"]))
     rep.floor("R3", 3, "raise_match_count_if sites")
     # the conditions under which they call it are tabulated in C13.R2 (vote is True) and C14.R3 (all expressions matched)
+    # the count of line n+1 must not depend on a control flag line n left behind: the matcher table's verdict and skip-consumed aspects
+    from . import matcher_model as MM
+    fm, rows = MM.run_model(idx, max_components=2, with_memo=False)
+    rep.analysed(fm)
+    bad = {}
+    for row in rows:
+        for aspect, ok, detail in MM.judge(row):
+            if aspect in ("verdict", "skip-consumed") and not ok:
+                bad.setdefault(aspect, detail)
+    for aspect in ("verdict", "skip-consumed"):
+        rep.check(aspect not in bad, "R3", f"{fm.file}::Matcher.matches table {aspect}", bad.get(aspect, f"{len(rows)} rows"), K.where(fm, fm.node))
 
 
 def r4(idx, rep):
@@ -554,3 +570,43 @@ def r9(idx, rep):
     ps = it.run_program(program, st)
     ok = len(ps) == 1 and ps[0].result == ("return", [1, 2, 7, 9, 10]) and ps[0].final_store[VARS].get("clicks") == 10
     rep.check(ok, "R9", f"{fco.file}::Counter sequence table", f"{ps[0].result if ps else None}; documented [1, 2, 7, 9, 10]", K.where(fco, fco.node))
+
+
+# ------------------------------------------------------------------------------------------ durable ids
+def durable_ids(idx, rep, rid):
+    """count()/every()/tally()/once/onchange keep their state under ExpressionUtility.get_id(component). The id is a digest of
+    str(component) and of its ancestors, so two components whose text differs (argument header, argument value, function name) must
+    have different ids — otherwise they share one tally. Decided by interpreting get_id and the __str__ methods it goes through on a
+    small component tree: expression → function(name) → argument list (header, term)."""
+    fi = idx.method("ExpressionUtility", "get_id")
+    strs = [idx.method(c, "__str__") for c in ("Function", "Equality", "Header", "Term", "Expression")]
+    rep.analysed(fi, *strs)
+    types = {"cls": "ExpressionUtility", "self": "ExpressionUtility", "f": "Function", "eq": "Equality", "h": "Header", "t": "Term", "e": "Expression"}
+    inl = {f"{c}.__str__" for c in ("Function", "Equality", "Header", "Term", "Expression", "Variable")}
+
+    def tree(fname, hname, tval):
+        return {"f._function_or_equality": Obj("eq"), "f.parent": Obj("e"), "e.parent": None, "f.qualified_name": fname, "f.name": fname, "f.children": [Obj("eq")],
+                "eq.op": ",", "eq.children": [Obj("h"), Obj("t")], "eq.left": Obj("h"), "eq.right": Obj("t"), "eq.parent": Obj("f"),
+                "h.qualified_name": hname, "h.name": hname, "t.value": tval, "e.children": [Obj("f")]}
+
+    def ident(fname, hname, tval):
+        it = Interp(idx, types=types, inline=inl, unknown_calls="error",
+                    handlers={"hashlib.sha256": lambda i, c, r, a, k: Obj("sha256:" + (a[0].decode() if isinstance(a[0], bytes) else str(a[0]))),
+                              ".hexdigest": lambda i, c, r, a, k: r.name,
+                              "._simple_class_name": lambda i, c, r, a, k: i.types.get(getattr(r, "name", None) or r.text, "?")})
+        ps = it.run_all(fi, args={"thing": Obj("f")}, store=tree(fname, hname, tval))
+        if len(ps) != 1 or ps[0].result[0] != "return" or not isinstance(ps[0].result[1], str):
+            raise AnalysisError(f"{rep.pid}.{rid}: get_id does not return one concrete id on a concrete component tree: {[p.result for p in ps]}")
+        return ps[0].result[1]
+
+    base = ("every", "a", 2)
+    variants = {"argument header": ("every", "b", 2), "argument value": ("every", "a", 3), "function name": ("tally", "a", 2)}
+    b = ident(*base)
+    bad = None
+    for what, v in variants.items():
+        if ident(*v) == b:
+            bad = bad or (f"{base[0]}(#{base[1]}, {base[2]}) and {v[0]}(#{v[1]}, {v[2]}) get the same durable id {b[:60]}…: components that differ in their {what} "
+                          "share one tally / once flag")
+    if ident(*base) != b:
+        bad = bad or "get_id is not a function of the component tree (two evaluations differ)"
+    rep.check(bad is None, rid, f"{fi.file}::ExpressionUtility.get_id distinguishes components by their text", bad or f"{len(variants)} variants", K.where(fi, fi.node))
